@@ -338,3 +338,112 @@ func TestVerifC18EventListBehaviour(t *testing.T) {
 		}
 	}
 }
+
+// TestVerifC18UsedMessageReceivers: the revocation messages with their own decoders (Update, EventList)
+// decoded into a value that already holds another message of the same type - every ordered pair of
+// messages from a small family (no events, one event, several events; JSON and CBOR): the result must be
+// the second message, exactly as if it had been decoded into a fresh value.
+func TestVerifC18UsedMessageReceivers(t *testing.T) {
+	r := vkit.Start(t, "C18", "used-message-receivers", 60*time.Second, 300*time.Second)
+	defer r.Finish()
+	r.Rule = "Update and EventList messages with 0, 1, 2 and 4 events: every ordered pair (first, second) of them, JSON and CBOR: decode first into a value, decode second into the SAME value; non-trivial = distinct (type, first, second, encoding); oracle: re-encoding equals the second message's bytes and equals what a fresh value gives; a re-read Update verifies iff the second message does"
+	if r.Shard != 0 {
+		return
+	}
+	k := vfK("toyA")
+	w := c11NewWorld(k)
+	for i := 0; i < 4; i++ {
+		w.revoke(vfRevPrime(60 + i))
+	}
+	last := w.last()
+	froms := []int{last + 1, last, last - 1, 1} // 0, 1, 2, 4 events
+	type codec struct {
+		name string
+		enc  func(any) ([]byte, error)
+		dec  func([]byte, any) error
+	}
+	codecs := []codec{
+		{"json", json.Marshal, json.Unmarshal},
+		{"cbor", func(v any) ([]byte, error) { return cbor.Marshal(v, cbor.EncOptions{}) }, func(b []byte, v any) error { return cbor.Unmarshal(b, v) }},
+	}
+	for _, cd := range codecs {
+		for _, fa := range froms {
+			for _, fb := range froms {
+				// Update
+				{
+					r.Eval()
+					desc := fmt.Sprintf("Update %s: %d events then %d events", cd.name, last-fa+1, last-fb+1)
+					r.Nontrivial(desc)
+					ba, err1 := cd.enc(w.update(fa))
+					bb, err2 := cd.enc(w.update(fb))
+					if err1 != nil || err2 != nil {
+						r.HarnessError("encode: %v %v", err1, err2)
+						return
+					}
+					var used, fresh revocation.Update
+					if err := cd.dec(ba, &used); err != nil {
+						r.Violate("C18|message-not-decodable|"+cd.name+"|Update", err.Error(), desc)
+						continue
+					}
+					e1, e2 := cd.dec(bb, &used), cd.dec(bb, &fresh)
+					bu, _ := cd.enc(&used)
+					bf, _ := cd.enc(&fresh)
+					_, v1 := used.Verify(k.Pk)
+					_, v2 := fresh.Verify(k.Pk)
+					same := (e1 == nil) == (e2 == nil) && bytes.Equal(bu, bf) && (v1 == nil) == (v2 == nil)
+					r.Outcome(fmt.Sprintf("Update:%s:used receiver behaves like a fresh one=%v", cd.name, same))
+					if !same {
+						r.Violate("C18|used-receiver-keeps-old-content|Update|"+cd.name, fmt.Sprintf("%s: decode errors %v / %v, re-encodings equal=%v, verify %v / %v", desc, e1, e2, bytes.Equal(bu, bf), v1, v2), desc)
+					}
+				}
+				// EventList (needs at least one event)
+				if fa <= last && fb <= last {
+					r.Eval()
+					desc := fmt.Sprintf("EventList %s: %d events then %d events", cd.name, last-fa+1, last-fb+1)
+					r.Nontrivial(desc)
+					mk := func(from int) *revocation.EventList {
+						var evs []*revocation.Event
+						for _, e := range w.events[from:] {
+							c := *e
+							evs = append(evs, &c)
+						}
+						return revocation.NewEventList(evs...)
+					}
+					ba, _ := cd.enc(mk(fa))
+					bb, _ := cd.enc(mk(fb))
+					used, fresh := &revocation.EventList{ComputeProduct: true}, &revocation.EventList{ComputeProduct: true}
+					if err := cd.dec(ba, used); err != nil {
+						r.Violate("C18|message-not-decodable|"+cd.name+"|EventList", err.Error(), desc)
+						continue
+					}
+					e1, e2 := cd.dec(bb, used), cd.dec(bb, fresh)
+					bu, _ := cd.enc(used)
+					bf, _ := cd.enc(fresh)
+					same := (e1 == nil) == (e2 == nil) && bytes.Equal(bu, bf)
+					// and both must behave alike when prepended
+					if same && fb > 1 {
+						// (one signed accumulator for both: every signature is randomised)
+						u1 := w.update(last + 1)
+						u2 := &revocation.Update{SignedAccumulator: &revocation.SignedAccumulator{Data: append([]byte{}, u1.SignedAccumulator.Data...), PKCounter: u1.SignedAccumulator.PKCounter}, Events: []*revocation.Event{}}
+						if _, err := u1.Verify(k.Pk); err != nil {
+							r.HarnessError("%v", err)
+							return
+						}
+						if _, err := u2.Verify(k.Pk); err != nil {
+							r.HarnessError("%v", err)
+							return
+						}
+						p1, p2 := u1.Prepend(used), u2.Prepend(fresh)
+						b1, _ := cd.enc(u1)
+						b2, _ := cd.enc(u2)
+						same = (p1 == nil) == (p2 == nil) && bytes.Equal(b1, b2)
+					}
+					r.Outcome(fmt.Sprintf("EventList:%s:used receiver behaves like a fresh one=%v", cd.name, same))
+					if !same {
+						r.Violate("C18|used-receiver-keeps-old-content|EventList|"+cd.name, fmt.Sprintf("%s: decode errors %v / %v, re-encodings equal=%v", desc, e1, e2, bytes.Equal(bu, bf)), desc)
+					}
+				}
+			}
+		}
+	}
+}
